@@ -28,6 +28,7 @@ package syntax
 //@   requires exp != nil && !isnil(syntax.notEqualError)
 //@   ensures @kind isnil(result) ==> istype(other, ptr_syntax.IntExp) || istype(other, ptr_syntax.FloatExp)
 //@   ensures @same isnil(result) && istype(other, ptr_syntax.IntExp) ==> as(other, ptr_syntax.IntExp).Value == exp.Value
+//@   ensures @samefloat isnil(result) && istype(other, ptr_syntax.FloatExp) ==> as(other, ptr_syntax.FloatExp).Value == real(exp.Value)
 //@ func syntax.FloatExp.equal property C15
 //@   requires exp != nil && !isnil(syntax.notEqualError)
 //@   ensures @kind isnil(result) ==> istype(other, ptr_syntax.IntExp) || istype(other, ptr_syntax.FloatExp)
